@@ -106,6 +106,12 @@ func cacheChildMain(args []string) {
 	procs := fl.Int("procs", 1, "GOMAXPROCS")
 	fl.Parse(args)
 	runtime.GOMAXPROCS(*procs)
+	if *cacheDir == "" {
+		// a build without --cache-dir still uses os.UserCacheDir()/dev.chainguard.go-apk; only when that
+		// cannot be determined is the cache really off — which is what the reference build must be
+		os.Unsetenv("HOME")
+		os.Unsetenv("XDG_CACHE_HOME")
+	}
 	w, err := loadCacheWorld(*world)
 	if err != nil {
 		fmt.Fprintln(os.Stderr, "cache-child:", err)
